@@ -245,6 +245,7 @@ func c07RecursionGated(c *Check, a *Anchors) {
 	info := rt.Info()
 	var gate *ast.IfStmt
 	gateStmt := map[*ast.IfStmt]*ast.IfStmt{} // gate (possibly in a helper) -> the top-level statement of RunTask that applies it
+	inverted := map[*ast.IfStmt]*ast.BlockStmt{} // gate written as `if count < Max { return nil }`: the statements that follow it
 	scan := func(list []ast.Stmt) *ast.IfStmt {
 		var g *ast.IfStmt
 		for _, s := range list {
@@ -252,7 +253,7 @@ func c07RecursionGated(c *Check, a *Anchors) {
 			if !ok {
 				continue
 			}
-			hasAdd, hasMax := false, false
+			hasAdd, hasMax, isInverted := false, false, false
 			ast.Inspect(ifs.Cond, func(nd ast.Node) bool {
 				switch x := nd.(type) {
 				case *ast.CallExpr:
@@ -260,10 +261,11 @@ func c07RecursionGated(c *Check, a *Anchors) {
 						hasAdd = true
 					}
 				case *ast.BinaryExpr:
-					if x.Op == token.GEQ || x.Op == token.GTR {
+					if x.Op == token.GEQ || x.Op == token.GTR || x.Op == token.LSS || x.Op == token.LEQ {
 						if id, ok := ast.Unparen(x.Y).(*ast.Ident); ok {
 							if cst, ok := info.Uses[id].(*types.Const); ok && cst.Name() == "MaximumTaskCall" {
 								hasMax = true
+								isInverted = x.Op == token.LSS || x.Op == token.LEQ
 							}
 						}
 					}
@@ -272,6 +274,21 @@ func c07RecursionGated(c *Check, a *Anchors) {
 			})
 			if hasAdd && hasMax {
 				g = ifs
+				if isInverted {
+					// `if count < Max { return nil }` followed by the error: the statements after the if are the gate's error branch
+					rest := &ast.BlockStmt{Lbrace: ifs.End(), Rbrace: ifs.End()}
+					after := false
+					for _, s2 := range list {
+						if after {
+							rest.List = append(rest.List, s2)
+							rest.Rbrace = s2.End()
+						}
+						if s2 == ast.Stmt(ifs) {
+							after = true
+						}
+					}
+					inverted[ifs] = rest
+				}
 			}
 		}
 		return g
@@ -325,7 +342,11 @@ func c07RecursionGated(c *Check, a *Anchors) {
 		return
 	}
 	found, _ := false, 0
-	for _, r := range returnsOf(gate.Body) {
+	errBranch := ast.Node(gate.Body)
+	if rest, ok := inverted[gate]; ok {
+		errBranch = rest
+	}
+	for _, r := range returnsOf(errBranch) {
 		res := errResult(r)
 		e := ast.Unparen(res)
 		if u, ok := e.(*ast.UnaryExpr); ok {
